@@ -13,3 +13,4 @@ import GSV.RealInst
 import GSV.Props.C08
 import GSV.Props.C05
 import GSV.Props.C06
+import GSV.Props.C07
